@@ -231,7 +231,7 @@ func init() {
 	// ---- sdk.Context ---------------------------------------------------------------------------
 	ctxFn := func(name string, s *Sort, t types.Type) intrinsic {
 		return func(fc *FCtx, st *State, e *ast.CallExpr, r *Val, a []Val) []Val {
-			fc.U.Fun(name, []*Sort{r.S}, s)
+			fc.ctxTheory()
 			v := Val{T: app(name, r.T), S: s, GoT: fc.resT(e)}
 			st.assume(fc.U.WF(v))
 			return one(v)
